@@ -168,6 +168,9 @@ func (c *checkCtx) engineTV(n int, feat string) {
 		return map[string]J{"db": cs["db"], "query": cs["query"], "qv": cs["qv"], "nv": cs["nv"]}
 	})
 	c.validateTraces("engine", "EngineTrace", "EngineTrace.cfg", traces, traceOpts{})
+	if c.id == "C01" {
+		c.bindingSelfTest("EngineTrace", "EngineTrace.cfg", traces, 6)
+	}
 }
 
 func init() {
